@@ -5,7 +5,7 @@
 (* bad arguments are replies, never undefined).  cmd is the argument vector *)
 (* exactly as sent: a sequence of byte strings, cmd[1] the command name.    *)
 (***************************************************************************)
-EXTENDS Keyspace, Sets, Hashes
+EXTENDS Keyspace, Sets, Hashes, Bitmaps
 
 DataNames ==
     {"LPUSH", "RPUSH", "LPUSHX", "RPUSHX", "LPOP", "RPOP", "LLEN", "LINDEX", "LRANGE", "LSET",
@@ -19,7 +19,7 @@ DataNames ==
      "INCRBYFLOAT", "LCS",
      "DEL", "UNLINK", "EXISTS", "TOUCH", "TYPE", "RENAME", "RENAMENX", "COPY", "KEYS", "RANDOMKEY",
      "EXPIRE", "PEXPIRE", "EXPIREAT", "PEXPIREAT", "PERSIST", "TTL", "PTTL", "EXPIRETIME", "PEXPIRETIME",
-     "SORT"}
+     "SORT", "GETBIT", "SETBIT", "BITCOUNT", "BITPOS", "BITOP", "BITFIELD", "BITFIELD_RO"}
 
 \* commands handled at the server level (sessions, databases, transactions), see Server.tla
 ServerNames == {"SELECT", "FLUSHDB", "FLUSHALL", "DBSIZE", "PING", "ECHO", "MULTI", "EXEC", "DISCARD",
@@ -122,6 +122,13 @@ ExecLive(raw, d, now, cmd) ==
           [] nm = "EXPIRETIME" -> ExpireTime(d, a, "s")
           [] nm = "PEXPIRETIME" -> ExpireTime(d, a, "ms")
           [] nm = "SORT" -> Sort(d, a)
+          [] nm = "GETBIT" -> GetBit(d, a)
+          [] nm = "SETBIT" -> SetBit(d, a)
+          [] nm = "BITCOUNT" -> BitCount(d, a)
+          [] nm = "BITPOS" -> BitPos(d, a)
+          [] nm = "BITOP" -> BitOp(d, a)
+          [] nm = "BITFIELD" -> BitField(d, a, FALSE)
+          [] nm = "BITFIELD_RO" -> BitField(d, a, TRUE)
           [] OTHER -> Fail(d, RErr("ERR"))      \* unknown command
 
 \* stored-but-expired entries the command did not touch stay stored (they are invisible)
